@@ -20,6 +20,7 @@ DECLINED = ["'eventually acquires' (fairness / progress)",
 ASSUMPTIONS = ["X2: the spinlock primitives are a correct test-and-set lock", "C02.R3/C05.R5 for the blocking arms"]
 RULES_DOC = dict(common.SHARED_DOC)
 RULES_DOC["X4"] = common.X4_DOC
+RULES_DOC["R10"] = "= C05.R1: a condition wait releases the mutex through ABTI_mutex_unlock, enqueues, and re-acquires through ABTI_mutex_lock (the recursive-mutex bookkeeping is kept across a wait); error paths return holding the mutex"
 RULES_DOC.update({
     "R1": "unlock_no_recursion: release(lock) before broadcast, both inside the waiter_lock section",
     "R2": "lock_no_recursion: enqueue only after acquire(waiter_lock) and a failed re-try of the mutex word in the same section; returns only after a successful try with waiter_lock released",
@@ -304,6 +305,12 @@ def rule_R4(P, rep):
     missing = {"plain", "last", "nested"} - kinds
     rep.ob("R4", "ABTI_mutex_unlock distinguishes plain / last / nested release", not missing, "missing: %s" % sorted(missing),
            loc="%s:%d" % (F.file, F.line), site="ABTI_mutex_unlock/cases")
+    # the nesting depth is bounded only by the counter's width: it must not be narrower than int
+    fld = [f for f in P.record("ABTI_mutex")["fields"] if f["n"] == "nesting_cnt"]
+    rep.need(len(fld) == 1 and "sz" in fld[0], "ABTI_mutex::nesting_cnt not found in the record layout")
+    rep.ob("R4", "ABTI_mutex::nesting_cnt is at least as wide as int (nested acquisitions beyond 255/65535 levels do not wrap)",
+           fld[0]["sz"] >= 4, "the field is %d byte(s) wide (%s): the count wraps and the mutex is released while still owned" %
+           (fld[0]["sz"], fld[0]["t"]), loc="src/include/abti.h", site="nesting_cnt/width")
     rep.min_instances("R4", 16)
 
 
@@ -506,3 +513,5 @@ def run(P, rep, tier):
     rule_R7(P, rep, simple)
     rule_R8(P, rep)
     rule_R9(P, rep)
+    from . import C05        # lazy: C05 imports helpers of this module
+    common.borrow(rep, P, C05.rule_R1, "R10")
